@@ -38,22 +38,6 @@ def build_pgcat(quiet=True):
     return time.time() - t0
 
 
-def build_replayer():
-    """Build the lib-level replayer crate (path dependency on /repo)."""
-    rs = os.path.join(VERIF, 'harness', 'rs')
-    lock_src = os.path.join(REPO, 'Cargo.lock')
-    env = dict(os.environ)
-    env['CARGO_NET_OFFLINE'] = 'true'
-    env['CARGO_PROFILE_RELEASE_OPT_LEVEL'] = '1'
-    cmd = ['cargo', 'build', '--release', '--offline', '--manifest-path', os.path.join(rs, 'Cargo.toml'),
-           '--target-dir', TARGET]
-    p = subprocess.run(cmd, env=env, cwd=rs, stdout=subprocess.PIPE, stderr=subprocess.STDOUT, text=True)
-    if p.returncode != 0:
-        sys.stderr.write(p.stdout[-6000:])
-        raise ToolError('replayer build failed')
-    return os.path.join(TARGET, 'release', 'replayer')
-
-
 def _call(args):
     func, item = args
     try:
